@@ -1,0 +1,86 @@
+//! Verification hook (cargo feature `verif`, add-only): a plain-data view of the four
+//! handshake frames of `do_authentication`, so that an external harness can decode a frame
+//! it relays, change one field and re-encode it with the *real* message types and the *real*
+//! `serialize` / `deserialize`, and the framing used by every real caller.
+//!
+//! Nothing here takes part in the handshake itself.
+
+use std::borrow::Cow;
+
+use crate::internal::messages::auth::{
+    AuthenticationError, AuthenticationMode, AuthenticationRequest, AuthenticationResponse,
+    Challenge, EncryptionResponse,
+};
+use crate::internal::transfer::auth::{deserialize, serialize};
+
+pub use crate::internal::transfer::transport::make_protocol_builder;
+
+/// `AuthenticationRequest` as plain data; `challenge == None` is `AuthenticationMode::NoAuth`.
+#[derive(Debug, Clone, PartialEq, Eq, Hash)]
+pub struct AuthRequestView {
+    pub protocol: u32,
+    pub role: String,
+    pub challenge: Option<Vec<u8>>,
+}
+
+/// `AuthenticationResponse` as plain data.
+#[derive(Debug, Clone, PartialEq, Eq, Hash)]
+pub enum AuthResponseView {
+    NoAuth,
+    Encryption { nonce: Vec<u8>, response: Vec<u8> },
+    Error { message: String },
+}
+
+pub fn decode_request(data: &[u8]) -> Option<AuthRequestView> {
+    let msg: AuthenticationRequest = deserialize(data).ok()?;
+    Some(AuthRequestView {
+        protocol: msg.protocol,
+        role: msg.role.into_owned(),
+        challenge: match msg.mode {
+            AuthenticationMode::NoAuth => None,
+            AuthenticationMode::Encryption(c) => Some(c.challenge),
+        },
+    })
+}
+
+pub fn encode_request(view: &AuthRequestView) -> Vec<u8> {
+    let msg = AuthenticationRequest {
+        protocol: view.protocol,
+        role: Cow::Owned(view.role.clone()),
+        mode: match &view.challenge {
+            None => AuthenticationMode::NoAuth,
+            Some(c) => AuthenticationMode::Encryption(Challenge {
+                challenge: c.clone(),
+            }),
+        },
+    };
+    serialize(&msg).unwrap()
+}
+
+pub fn decode_response(data: &[u8]) -> Option<AuthResponseView> {
+    let msg: AuthenticationResponse = deserialize(data).ok()?;
+    Some(match msg {
+        AuthenticationResponse::NoAuth => AuthResponseView::NoAuth,
+        AuthenticationResponse::Encryption(r) => AuthResponseView::Encryption {
+            nonce: r.nonce,
+            response: r.response,
+        },
+        AuthenticationResponse::Error(e) => AuthResponseView::Error { message: e.message },
+    })
+}
+
+pub fn encode_response(view: &AuthResponseView) -> Vec<u8> {
+    let msg = match view {
+        AuthResponseView::NoAuth => AuthenticationResponse::NoAuth,
+        AuthResponseView::Encryption { nonce, response } => {
+            AuthenticationResponse::Encryption(EncryptionResponse {
+                nonce: nonce.clone(),
+                response: response.clone(),
+            })
+        }
+        AuthResponseView::Error { message } => AuthenticationResponse::Error(AuthenticationError {
+            message: message.clone(),
+        }),
+    };
+    serialize(&msg).unwrap()
+}
